@@ -228,7 +228,8 @@ def fam_reduce_rect(rng):
 
 def fam_tolist(rng):
     """C02 base: every physical encoding of a value reads back as that value (length, getitem_at, fields, scalars)"""
-    T = L.gen_type(rng, rng.randint(0, 3), allow_union=True)
+    T = L.gen_type(rng, rng.randint(0, 3), allow_union=True,
+                   leaf_dtypes=(["complex128", "complex64", "int64", "float64"] if rng.random() < 0.1 else None))
     vals = [L.gen_value(rng, T) for _ in range(L.toplen(rng, 0, 4))]
     lay = L.Enc(rng).encode(vals, T)
     return Case("tolist " + lay.tokens(), expect_value(vals, "to_list", cmp=L.same, want_valid=False), {"value": vals, "type": T})
@@ -950,23 +951,27 @@ def fam_astype(rng):
     """C08: values_astype (numbers_to_type) changes no value beyond NumPy's own numeric cast of each leaf (oracle:
     numpy.astype) and leaves lists, missing values and lengths untouched"""
     import numpy as np
-    T = gen_pure(rng, rng.randint(0, 2), regular=0.2)
+    T = gen_pure(rng, rng.randint(0, 2), regular=0.2, leaf=(["complex128", "complex64"] if rng.random() < 0.1 else None))
     vals = [L.gen_value(rng, T) for _ in range(L.toplen(rng, 0, 4))]
     if "nan" in repr(vals) or "inf" in repr(vals):
         return None
     lay = L.Enc(rng).encode(vals, T)
-    to = rng.choice(LEAF_ALL)
+    to = rng.choice(LEAF_ALL + ["complex128", "complex64"])
     leaf = T
     while leaf[0] in ("list", "regular", "option"):
         leaf = leaf[1]
     frm = leaf[1]
+    if frm.startswith("complex") and to == "bool":
+        return None          # KF-C08-astype-complex-to-bool
 
     def cast(v):
         if v is None:
             return None
         if isinstance(v, list):
             return [cast(e) for e in v]
-        with np.errstate(all="ignore"):
+        import warnings
+        with np.errstate(all="ignore"), warnings.catch_warnings():
+            warnings.simplefilter("ignore")
             return np.array([v], dtype=frm).astype(to).tolist()[0]
     ref = cast(vals)
     return Case("numbers_to_type %s %s" % (to, lay.tokens()), expect_value(ref, "values_astype(%r, %s)" % (vals, to)), {"value": vals})
